@@ -89,7 +89,7 @@ let b2 b = if b then 1 else 0
 let () =
   let bits = if Array.length Sys.argv > 1 then Sys.argv.(1) else "00" in
   let g i = i < String.length bits && bits.[i] = '1' in
-  let cfg = { fx_xcache = g 0; fx_bfrag = g 1 } in
+  let cfg = () in
   let st = ref init_state in
   try
     while true do
@@ -113,7 +113,7 @@ let () =
             | "Q" -> OList (optok t.(1), n_of_int (int_of_string t.(2)), n_of_int (int_of_string t.(3)))
             | "U" | "I" | "J" | "S" | "N" -> OAffix (n_of_int 0, [n_of_int 47], [])   (* not modelled: see below *)
             | _ -> failwith ("bad op " ^ t.(0)) in
-          let (st', r) = if List.mem t.(0) ["U"; "I"; "J"; "S"; "N"] then (!st, RUnmodelled) else step cfg !st o in
+          let (st', r) = if List.mem t.(0) ["U"; "I"; "J"; "S"; "N"] then (!st, RUnmodelled) else (ignore cfg; step !st o) in
           (match r with
            | RInt z -> Printf.printf "> r %d\n" (int_of_z z)
            | RList l ->
